@@ -324,3 +324,13 @@ func DecOf(d *ion.Decimal) model.Dec {
 	}
 	return model.Dec{Coef: new(big.Int).Set(c), Exp: int64(e), NegZero: nz}
 }
+
+// Guard2 runs fn and converts a panic into a failure message.
+func Guard2(fn func() string) (msg string) {
+	defer func() {
+		if r := recover(); r != nil {
+			msg = fmt.Sprintf("PANIC: %v\n%s", r, debug.Stack())
+		}
+	}()
+	return fn()
+}
